@@ -692,3 +692,56 @@ def run_eofloc(chk, L, rid="R-EOFLOC"):
     if n < 2:
         raise AnalysisBroken("%s: %d <<EOF>> rules found in the scanner" % (rid, n))
     chk.analysed[rid] = {"eof_rules": n}
+
+
+# ---------------------------------------------------------------------------------------------- R-POSKEY
+def run_poskey(chk, F, rid="R-POSKEY"):
+    """position_index_t maps an absolute position to the line record (path, line, offset) of the block it lies in.  The
+    table is ordered by one field: `add` refuses a record whose `position` is below the last one.  Every other place that
+    compares a looked-up position with a record must compare it with that same field - `offset` restarts at 0 in every
+    XML block, so a shortcut that tests `position < lines[i].offset` sends a diagnostic to the record of another block."""
+    chk.rule(rid, "in position_index_t, every comparison of a position parameter with a field of a line record uses the "
+                  "field that `add` keeps monotonic (the ordering key of the table)")
+
+    def record_field(e):
+        """F for `lines[..].F` / `lines.back().F` / `<element of lines>.F`"""
+        while isinstance(e, dict) and e.get("k") in ("cast", "paren"):
+            e = e["e"]
+        if isinstance(e, dict) and e.get("k") == "member" and (
+                "lines" in short(e.get("base") or {}) or str(e.get("of") or "").endswith("line_t") or
+                "line_t" in str((e.get("base") or {}).get("t") or "")):
+            return e.get("name")
+        return None
+    sites = []
+    for q, fns in F.by_q.items():
+        if not q.startswith("UTAP::position_index_t::"):
+            continue
+        for fn in fns:
+            if fn.get("body") is None:
+                continue
+            pn = {p_["name"] for p_ in fn.get("params", [])}
+            for x in walk(fn["body"]):
+                if x.get("k") == "bin" and x.get("op") in ("<", "<=", ">", ">=", "==", "!="):
+                    for a, b in ((x["lhs"], x["rhs"]), (x["rhs"], x["lhs"])):
+                        f_ = record_field(a)
+                        b0 = b
+                        while isinstance(b0, dict) and b0.get("k") in ("cast", "paren"):
+                            b0 = b0["e"]
+                        if f_ and isinstance(b0, dict) and b0.get("k") == "ref" and \
+                                (b0.get("name") in pn or b0.get("dk") == "param"):
+                            sites.append((fn, x, f_))      # a parameter of the method or of a comparator lambda in it
+    keys = {f_ for fn, x, f_ in sites if fn["name"] == "add"}
+    if len(keys) != 1 or len(sites) < 2:
+        raise AnalysisBroken("%s: ordering key of position_index_t not recognised (add compares %s; %d comparisons)" %
+                             (rid, sorted(keys), len(sites)))
+    key = next(iter(keys))
+    seen = {}
+    for fn, x, f_ in sites:
+        k_ = "%s/%d" % (fn["name"], len(fn.get("params", [])))
+        seen[k_] = seen.get(k_, 0) + 1
+        chk.ob(rid, k_ if seen[k_] == 1 else "%s#%d" % (k_, seen[k_]), f_ == key,
+               "position_index_t::%s compares a position with `.%s` of a line record (`%s`), but the table is ordered by "
+               "`.%s`: `.%s` is relative to the block and restarts in every element, so the lookup can return the record "
+               "of another block and the diagnostic is attributed to that block" % (fn["name"], f_, short(x)[:60], key, f_),
+               "%s:%s" % (fn["file"], x.get("l")))
+    chk.analysed[rid] = {"comparisons": len(sites), "ordering_key": key}
